@@ -81,6 +81,7 @@ def run_scenario(sc: dict[str, Any]) -> dict[str, Any]:
             if sc.get('res'):         # handlers return results: status.<handler id> = {'n': k}
                 st_ = o.get('status') or {}
                 pr['res'] = {h: int((st_.get(h) or {}).get('n', 0)) if isinstance(st_.get(h), dict) else 0 for h in UNIVERSE}
+                pr['evres'] = int((st_.get('w') or {}).get('n', 0)) if isinstance(st_.get('w'), dict) else 0
             return pr
         sim.srv.projector = project
         if (sc.get('res') or {}).get('ssub'):
@@ -120,6 +121,12 @@ def run_scenario(sc: dict[str, Any]) -> dict[str, Any]:
                     elif reason == 'update': kopf.on.update(GROUP, VERSION, PLURAL, **kw)(fns[h])
                     elif reason == 'delete': kopf.on.delete(GROUP, VERSION, PLURAL, optional=c['optional'], **kw)(fns[h])
                     elif reason == 'resume': kopf.on.resume(GROUP, VERSION, PLURAL, deleted=c['deleted'], **kw)(fns[h])
+            if (sc.get('res') or {}).get('ev'):       # a raw-event handler that returns what it saw: status.w = {'n': essence}
+                def w(body, **_):
+                    if sc['res']['ev'] == 'const':
+                        return {'n': 1}
+                    return {'n': ess_id((body.get('spec') or {}).get('x'), ((body.get('metadata') or {}).get('labels') or {}).get('on') == 'yes')}
+                kopf.on.event(GROUP, VERSION, PLURAL, registry=reg, id='w')(w)
             for hid, c in (sc.get('daemons') or {}).items():        # daemons on the same object (scripted reactions, see vf/daemons.py)
                 kopf.daemon(GROUP, VERSION, PLURAL, registry=reg, id=hid, cancellation_backoff=c['backoff'] or None,
                             cancellation_timeout=c['timeout'] or None, cancellation_polling=3, **flt)(dfns[hid])
@@ -180,9 +187,13 @@ def run_scenario(sc: dict[str, Any]) -> dict[str, Any]:
                     return
                 start()
             elif op == 'relist':
-                sim.srv.compact(sim.things, upto=sim.srv.rv + 1)      # (also the latest version is gone: the watch cannot resume, it must re-list)
+                rv0 = sim.srv.rv
+                sim.srv.compact(sim.things, upto=rv0 + 1)      # (also the latest version is gone: the watch cannot resume, it must re-list)
                 for w in list(sim.srv.watches):
                     if w.res.plural == PLURAL: w.end('eof')
+                # ... and once it has re-listed, the listed version can be watched from again (as on a real server; otherwise the
+                # operator would re-list every second until the next write)
+                sim.world.after(1.5, lambda: sim.srv.compact(sim.things, upto=rv0) if sim.srv.compacted.get(sim.things.key) == rv0 + 1 else None)
             elif op == 'hold':
                 held['on'] = True
             elif op == 'release':
@@ -246,7 +257,7 @@ def conf_of(sc: dict[str, Any]) -> dict[str, Any]:
     if sc.get('subs'):
         conf['subs'] = {h: (list(sc['subs'][h]) if h in sc['subs'] else []) for h in UNIVERSE}
     if sc.get('res') and not sc.get('subs') and not sc.get('daemons'):
-        conf['res'] = {'ssub': bool(sc['res'].get('ssub'))}
+        conf['res'] = {'ssub': bool(sc['res'].get('ssub')), 'ev': {True: 'mirror', 'const': 'const'}.get(sc['res'].get('ev'), 'off'), 'idle': int(sc.get('idle', 5))}
     if sc.get('daemons'):
         conf.update(dh={hid: {'kind': 'daemon', 'backoff': c['backoff'], 'timeout': c['timeout'], 'sync': bool(c.get('sync'))}
                         for hid, c in sc['daemons'].items()}, polling=3, exitto=2)
@@ -381,7 +392,7 @@ def convert(raw: list[dict[str, Any]], hs: dict[str, Any], sc: dict[str, Any]) -
 
 def _objfields(p: dict[str, Any], off: int) -> dict[str, Any]:
     return {'rv': p['rv'] - off, 'ess': p['ess'], 'lh': p['lh'], 'prog': p['prog'], 'fins': p['fins'],
-            'deleting': p['deleting'], 'dummy': p['dummy'], 'match': p['match'], **({'res': p['res']} if 'res' in p else {})}
+            'deleting': p['deleting'], 'dummy': p['dummy'], 'match': p['match'], **({'res': p['res'], 'evres': p['evres']} if 'res' in p else {})}
 
 
 # --------------------------------------------------------------------------- judging
@@ -561,7 +572,7 @@ def gen_scenarios(seed: int, n: int, profile: str) -> list[dict[str, Any]]:
             sc['updonly'] = True
         if profile in ('converge', 'progress', 'errors', 'finalizer', 'consistency', 'resume') and r2.random() < 0.35:
             # handlers return results (status.<handler id>), on a kind with or without the status subresource
-            sc['res'] = {'ssub': r2.random() < 0.6}
+            sc['res'] = {'ssub': r2.random() < 0.6, 'ev': False}
             for h in hs:
                 hs[h]['script'] = [('ok', {'n': r2.choice([1, 2])}) if x_ == 'ok' and r2.random() < 0.7 else x_ for x_ in hs[h]['script']] + [('ok', {'n': r2.choice([1, 2])})]
         if profile == 'timeouts':    # handler timeouts: attempts stop T seconds after the first one, across retries and restarts
@@ -591,6 +602,8 @@ def gen_scenarios(seed: int, n: int, profile: str) -> list[dict[str, Any]]:
                            'backoff': rnd.choice([0, 2, 3]), 'timeout': rnd.choice([0, 2, 4]), 'sync': rnd.random() < 0.25}
             sc['daemons'] = dm
             sc['end'] = t + 100; sc['tail_from'] = t + 80
+        if sc.get('res') and r2.random() < 0.4:      # ... and a raw-event handler that mirrors what it saw into status.w on every event
+            sc['res']['ev'] = r2.choice([True, True, 'const'])
         out.append(sc)
     return out
 
